@@ -6,4 +6,5 @@ CONSTANTS
   Full = FALSE
   MaxCnt = 3
 INVARIANT InvLayout
+INVARIANT InvAccessor
 CHECK_DEADLOCK FALSE
